@@ -23,6 +23,10 @@ Step ==
        /\ Check("C17.groups-are-per-message", c, l, ok => (e.againErr = "" /\ e.again = e.res))
        /\ Check("C17.plain-alerts-pass-through", c, l,
                 (ok /\ e.plainErr = "" /\ \A i \in DOMAIN msg.ents : PlainAlert(msg.ents[i])) => e.full = e.plain)
+       (* an entity may carry an alert and a trip update at once; whether a parser then uses the alert or not is not  *)
+       (* fixed by any property, but the other alerts' groups must come out as under one of the two readings         *)
+       /\ Check("C17.entity-with-two-payloads", c, l,
+                e.hasFused => (e.fusedErr = "" /\ (e.fused = e.res.alerts \/ e.fused = e.withoutFirst)))
     /\ l' = l + 1
 Spec == Init /\ [][Step]_l
 TraceAccepted == TLCGet("stats").diameter - 1 = Len(Trace)
